@@ -14,7 +14,8 @@ RULE = ("for every generated document pair of one input type all 288 cells {8 ou
         "{-,-j} x {equal,different} are enumerated; 8 input types (json, json5, yaml, csv, xml, html, plist, pickle); non-trivial = "
         "the documents differ; distinct = distinct (input type, pair, cell)")
 ASSUMPTIONS = ["what the output looks like is not judged, only that rendering completes (main() returns 0 or 1, no traceback)"]
-MINIMUMS = {"quick": {"cells_run": 5000, "cells_with_status_output_and_real_fds": 2000}, "thorough": {"cells_run": 60000, "cells_with_status_output_and_real_fds": 25000}}
+MINIMUMS = {"quick": {"cells_run": 5000, "cells_with_status_output_and_real_fds": 2000, "cells_on_a_terminal": 1000},
+            "thorough": {"cells_run": 60000, "cells_with_status_output_and_real_fds": 25000, "cells_on_a_terminal": 12000}}
 MODES = [[], ["-e"], ["-d"]]
 LOOKS = [[], ["--color"], ["--html"]]
 COND = [[], ["-j"]]
@@ -55,11 +56,13 @@ def check(case, ctx):
     pb = families.tmpfile(formats.write(t, db), "-b" + formats.EXT[t])
     # every other cell runs the way a user's default invocation does: status output enabled and stdout/stderr with real file
     # descriptors (StatusWriter's buffered tqdm.write path); the others with --no-status into in-memory streams
-    status_on = core.case_hash([case["type"], case["fmt"], case["mode"], case["look"], case["cond"], case["same"], repr(case["a"])]) % 2 == 0
+    # ... and a quarter on (pseudo-)terminals, where isatty() is true: colour on by default, tqdm draws its bars
+    h = core.case_hash([case["type"], case["fmt"], case["mode"], case["look"], case["cond"], case["same"], repr(case["a"])]) % 4
+    status_on, tty = h in (0, 2, 3), h == 3
     argv = ([] if status_on else ["--no-status"]) + ["--format", case["fmt"]] + case["mode"] + case["look"] + case["cond"] + [pa, pb]
-    res = monitors.run_main(argv, real_files=status_on)
+    res = monitors.run_main(argv, real_files=status_on, tty=tty)
     if ctx is not None:
-        ctx.count("cells_with_status_output_and_real_fds" if status_on else "cells_no_status_in_memory")
+        ctx.count("cells_on_a_terminal" if tty else ("cells_with_status_output_and_real_fds" if status_on else "cells_no_status_in_memory"))
     if ctx is not None:
         ctx.count("cells_run")
         ctx.count(f"in:{t}")
